@@ -26,6 +26,7 @@ def run(ctx):
     ctx.guarded('R18b', c05.DIRECT, lambda: r18b(ctx))
     ctx.guarded('R18c', LOADC, lambda: r18c(ctx))
     ctx.guarded('R18d', 'register_shards', lambda: r18d(ctx))
+    ctx.guarded('R18d', 'load_from_file', lambda: fresh_unfiltered_loads(ctx))
 
 
 def r18a(ctx):
@@ -248,5 +249,29 @@ def r18d(ctx):
                 ac = an(c)
                 if ac.calls('mdb_shard::shard_file_handle::MDBShardFile::load_all_valid'):
                     src = 'load_all_valid (in try_fold closure)'
+                other = [x for x in ac.calls() if 'MDBShardFile::' in sg(ac.term(x).get('fn', '')) and sg(ac.term(x)['fn']).split('::')[-1] not in ('load_all_valid',)
+                         and sg(ac.term(x)['fn']).split('::')[-1].startswith(('load', 'new', 'scan'))]
+                ctx.check(not other, 'R18d', c['qpath'], 'by-path loaders', ac.loc(other[0]) if other else '-', 'shards given by path are loaded through load_all_valid only',
+                          'a shard given by path is loaded with %s, which does not apply the expiry filter of load_all_valid: an expired keyed shard is registered and answers dedup queries'
+                          % (sg(ac.term(other[0])['fn']).split('::')[-1] if other else ''))
         ctx.check(src is not None, 'R18d', b['qpath'], 'source', a.loc(bi), 'shards registered here come from %s' % src, 'shards are registered from an unfiltered source: %s' % flow.show(v)[:80])
     # load_from_file (used by flush) loads a file just written by this process: fresh, no expiry
+
+
+def fresh_unfiltered_loads(ctx):
+    """MDBShardFile::load_from_file applies no expiry filter: in library code it may only load a file the same function
+    has just written (a path returned by write_to_directory, or the destination of a rename it performed)."""
+    LOADF = 'mdb_shard::shard_file_handle::MDBShardFile::load_from_file'
+    sites = [(b, bi) for (b, bi) in ctx.cg.call_sites(LOADF) if '::tests::' not in b['qpath'] and not b['crate'].startswith('bin:')]
+    ctx.floor('R18d', 'load_from_file call sites in library code', len(sites), 1)
+    for (b, bi) in sites:
+        a = an(b)
+        v = a.arg(bi, 0)
+        fresh = flow.mentions(v, lambda z: z[0] == 'call' and sg(z[1]).endswith('MDBInMemoryShard::write_to_directory'))
+        if not fresh:
+            for r in a.calls('std::fs::rename'):
+                d = a.arg(r, 1)
+                if a.cfg.dominates(r, bi) and flow.access_path(d) is not None and flow.mentions(v, lambda z: flow.access_path(z) == flow.access_path(d) and z[0] == d[0]):
+                    fresh = True
+        ctx.check(fresh, 'R18d', b['qpath'], 'load_from_file.path', a.loc(bi), 'the unfiltered loader is applied to a shard file this function has just written',
+                  'MDBShardFile::load_from_file (no expiry filter) is applied to a pre-existing path (%s): an expired keyed shard can be loaded' % flow.show(v)[:60])
